@@ -9,6 +9,8 @@
 #include <string.h>
 #include <sys/syscall.h>
 #include <sys/types.h>
+#include <sys/mman.h>
+#include <pthread.h>
 #include <sys/stat.h>
 #include <sys/socket.h>
 #include <sys/un.h>
@@ -16,6 +18,8 @@
 #include <sys/wait.h>
 #include <time.h>
 #include <unistd.h>
+
+static void *opener(void *a) { (void)a; for (;;) { int fd = syscall(SYS_open, "/dev/null", O_RDONLY); if (fd >= 0) close(fd); } return NULL; }
 
 int main(int argc, char **argv) {
   if (argc < 2) return 2;
@@ -150,6 +154,57 @@ int main(int argc, char **argv) {
     int out = open(argv[2], O_CREAT | O_WRONLY | O_TRUNC, 0600);
     if (out < 0) _exit(98);
     write(out, buf, n); close(out);
+    _exit(0);
+  } else if (!strcmp(c, "hostile")) {
+    // syscalls with adversarial arguments; prints "name=ret/errno ..." and exits 0
+    const char *k = argv[2];
+    char *reg = mmap(NULL, 3 * 4096, PROT_READ | PROT_WRITE, MAP_PRIVATE | MAP_ANONYMOUS, -1, 0);
+    mprotect(reg + 2 * 4096, 4096, PROT_NONE);
+    long r = 0;
+    if (!strcmp(k, "unterminated")) { memset(reg, 'a', 2 * 4096); r = syscall(SYS_open, reg, O_RDONLY); }
+    else if (!strcmp(k, "exact4096")) { memset(reg, 'a', 2 * 4096); reg[4096] = 0; r = syscall(SYS_open, reg, O_RDONLY); }
+    else if (!strcmp(k, "unaligned_long")) { memset(reg, 'a', 2 * 4096); reg[8191] = 0; r = syscall(SYS_open, reg + 100, O_RDONLY); }
+    else if (!strcmp(k, "cross_unmapped")) { memset(reg, 'b', 2 * 4096); r = syscall(SYS_open, reg + 2 * 4096 - 10, O_RDONLY); }
+    else if (!strcmp(k, "cross_ok")) { memset(reg, 0, 2 * 4096); strcpy(reg + 4096 - 5, "/dev/null"); r = syscall(SYS_open, reg + 4096 - 5, O_RDONLY); if (r < 0) _exit(50); }
+    else if (!strcmp(k, "null_ptr")) { r = syscall(SYS_open, 8L, O_RDONLY); }
+    else if (!strcmp(k, "kernel_ptr")) { r = syscall(SYS_open, 0xffff800000000000UL, O_RDONLY); }
+    else if (!strcmp(k, "noncanonical_ptr")) { r = syscall(SYS_open, 0x8000000000000000UL, O_RDONLY); }
+    else if (!strcmp(k, "unmapped_page")) { r = syscall(SYS_open, reg + 2 * 4096 + 7, O_RDONLY); }
+    else if (!strcmp(k, "garbage_dirfd")) { strcpy(reg, "/dev/null"); r = syscall(SYS_openat, 0xdeadbeef00000003UL, reg, O_RDONLY); }
+    else if (!strcmp(k, "huge_dirfd")) { strcpy(reg, "x"); r = syscall(SYS_openat, 0x7fffffffffffffffUL, reg, O_RDONLY); }
+    else if (!strcmp(k, "unknown_syscall")) { r = syscall(9999); }
+    else if (!strcmp(k, "negative_syscall")) { r = syscall(-5L); }
+    else if (!strcmp(k, "x32_syscall")) { r = syscall(0x40000000L | 2, reg, 0); }
+    else if (!strcmp(k, "openat2_bad_how")) { strcpy(reg, "/dev/null"); r = syscall(437, -100, reg, 8L, 24L); }
+    else if (!strcmp(k, "openat2_how_cross")) { strcpy(reg, "/dev/null"); r = syscall(437, -100, reg, reg + 2 * 4096 - 4, 24L); }
+    else if (!strcmp(k, "execve_bad")) { r = syscall(SYS_execve, 8L, 8L, 8L); }
+    else if (!strcmp(k, "symlink_nest")) {
+      // symlinks that never resolve: a self-nesting link and a two-link cycle, reached by absolute path
+      char cwd[2048], pth[4096]; if (!getcwd(cwd, sizeof cwd)) _exit(51);
+      unlink("loop"); unlink("a"); unlink("b");
+      symlink("loop/x", "loop"); symlink("b", "a"); symlink("a", "b");
+      snprintf(pth, sizeof pth, "%s/loop/file", cwd); r = syscall(SYS_open, pth, O_RDONLY);
+      snprintf(pth, sizeof pth, "%s/a", cwd); r = syscall(SYS_open, pth, O_RDONLY);
+      r = syscall(SYS_open, "loop/deeper/file", O_RDONLY);
+      unlink("loop"); unlink("a"); unlink("b");
+    }
+    else if (!strcmp(k, "threads_exit")) {
+      // threads issue traced syscalls while the main task leaves with exit_group
+      for (int i = 0; i < 8; i++) { pthread_t th; pthread_create(&th, NULL, opener, NULL); }
+      struct timespec ts = {0, 2000000}; nanosleep(&ts, NULL);
+      syscall(SYS_exit_group, 0);
+    }
+    else if (!strcmp(k, "clone_exit")) {
+      // create tasks and leave at once: the new tasks may be gone before the tracer looks at them
+      for (int i = 0; i < 4; i++) { pthread_t th; pthread_create(&th, NULL, opener, NULL); }
+      syscall(SYS_exit_group, 0);
+    }
+    else if (!strcmp(k, "fork_kill")) {
+      for (int i = 0; i < 4; i++) { pid_t p = fork(); if (p == 0) { for (;;) syscall(SYS_open, "/dev/null", O_RDONLY); } }
+      syscall(SYS_exit_group, 0);
+    }
+    else _exit(3);
+    (void)r;
     _exit(0);
   } else if (!strcmp(c, "hello")) {
     write(1, "hello\n", 6); _exit(0);
